@@ -263,7 +263,7 @@ func (e *cpEngine) evalLookup(fr *cpFrame, x *ssa.Lookup) cpVal {
 	}
 	// a lookup the fold cannot answer: recorded, so that rules can see which map was consulted with which key
 	res := e.resultOf(fr, x, "lookup")
-	e.calls = append(e.calls, cpCall{Callee: "maplookup", Args: []cpVal{m, kv}, Result: res})
+	e.calls = append(e.calls, cpCall{Callee: "maplookup", Args: []cpVal{m, kv}, Result: res, MapT: x.X.Type()})
 	return res
 }
 
@@ -271,6 +271,9 @@ func (e *cpEngine) mapUpdate(fr *cpFrame, x *ssa.MapUpdate) {
 	m := e.get(fr, x.Map)
 	mo, ok := m.(cpMap)
 	if !ok {
+		// a store into a map the fold does not hold (package state): recorded, so that rules can see what was
+		// stored under which key
+		e.calls = append(e.calls, cpCall{Callee: "mapupdate", Args: []cpVal{m, e.get(fr, x.Key), e.get(fr, x.Value)}, MapT: x.Map.Type()})
 		return
 	}
 	k, okK := cpKey(e.get(fr, x.Key))
